@@ -583,6 +583,10 @@ class Interp:
         for nm in names:
             frame['env'][nm] = Havoc(why, line)
         self.havocs.append((line, why))
+        # the states after an unmodelled statement are over-approximated (e.g. a dropped `assert` lets states through that the code
+        # refuses): a counter-model on this path proves nothing by itself -- taint the path, so that `sat` is UNDECIDED unless a
+        # native replay reproduces it (proofs are unaffected: a fresh Boolean assumed true helps nothing)
+        self.pc.append(z3.Bool(fresh_name('havoc!unmodelled_statement')))
 
     def _havoc_store(self, tgt, frame, why, line):
         try:
